@@ -393,6 +393,7 @@ def judge(hist, obs, version, kind="base", persist="none"):
     """Walk the history; return the list of failures (each tagged with its property)."""
     nocb = kind.endswith("-nocb")
     kind = kind[:-5] if nocb else kind
+    kind = kind[:-8] if kind.endswith("-raisecb") else kind
     sp = Spec(version, kind)
     prev = None
     from .gw import Obs
